@@ -106,6 +106,21 @@ def gen(tier, rng):
         h = g.gen_slice(rng, s, p, nal_type=[1, 5][i % 2], ref_idc=(i // 2) % 4, slice_type=(i // 8) % 10)
         nal2 = bitgen.aliased(rng, lambda: g.slice_nal(h, rng)[0])
         cases.append("slice %s raw:%s" % (ctx, hx(nal2)))
+    # several headers parsed one after the other against ONE context holding two SPS / PPS pairs of different shapes
+    # (IDR and non-IDR slices, alternating parameter sets): a parse leaves nothing behind in the context
+    for i in range(400 if tier == "quick" else 8000):
+        sa, pa, _ = mk_ctx(rng, rng.getrandbits(13))
+        sb, pb, _ = mk_ctx(rng, rng.getrandbits(13))
+        sa["id"], sb["id"] = 0, 1
+        pa["sps_id"], pb["sps_id"] = 0, 1
+        pa["id"], pb["id"] = 0, 1
+        ctx = "S%s,S%s,P%s,P%s" % (hx(g.sps_nal(sa, rng)), hx(g.sps_nal(sb, rng)), hx(g.pps_nal(pa, rng)), hx(g.pps_nal(pb, rng)))
+        srcs = []
+        for k in range(rng.randrange(2, 5)):
+            s_, p_ = (sa, pa) if rng.random() < 0.5 else (sb, pb)
+            h = g.gen_slice(rng, s_, p_, nal_type=rng.choice([1, 5, 5]) if k == 0 else rng.choice([1, 1, 5]), ref_idc=rng.randrange(4))
+            srcs.append("raw:" + hx(g.slice_nal(h, rng)[0]))
+        cases.append("slices %s %s" % (ctx, " ".join(srcs)))
     # other NAL types reaching the parser (2..4, 19, 20, 21) and header without trailing data
     for i in range(200 if tier == "quick" else 4000):
         s, p, ctx = mk_ctx(rng, rng.getrandbits(13))
@@ -125,6 +140,10 @@ def nontrivial(r):
 
 def extra_check(r):
     a = r["dev"]
+    if r["case"].startswith("slices "):
+        if any(part.strip().startswith("ok:") and ";same=11" not in part for part in a.split(";;")):
+            return ("value", "returned SPS/PPS are not the context entries named by the ids")
+        return None
     if a.startswith("ok:") and ";same=11" not in a:
         return ("value", "returned SPS/PPS are not the context entries named by the ids")
     return None
